@@ -13,6 +13,8 @@ CLAIM = (
     "(no greedy \\x followed by arbitrary text); (4) needs_escaping returns False only for characters that may appear raw between double "
     "quotes; (5) cpp.string_literal's ValueError for non-ASCII text is guarded by its callers. Covered: python str (5 tables) and bytes, "
     "C++ wide/narrow strings and wide chars, C#, Java, TypeScript (quoted and template), Go."
+    " LIT-KW: duplicate_curly_brackets / in_backticks / without_enclosing are passed to a literal function only inside "
+    "transform_joined_str (a stand-alone literal emitted with them denotes another text)."
 )
 NOTE = (
     "Trusted base: the per-language specification tables in sa/rules/chr.py (from the language references, DESIGN Appendix B) and the "
@@ -124,6 +126,9 @@ def run(ctx) -> None:
                          f"and its precondition/ValueError is not handled: a non-ASCII value crashes the C++ target instead of being reported",
                          construct=what)
     ctx.require_anchor(n > 0, "cpp.common.string_literal has callers")
+    ctx.rule("LIT-KW", "interpolation-only options of the literal functions are used only for parts of interpolated strings", floor=4)
+    from ..rules import litkw as _litkw
+    _litkw.check_literal_keywords(ctx, "LIT-KW")
 
 
 def _ascii_by_type(ctx, art, defs, e: ast.AST, seen) -> bool:
